@@ -71,9 +71,11 @@ def run(res, tier, replay):
             want = ref.get((m[0][:3], m[1], idx)); ncalls += 1
             if want is None: continue
             if (o.kv.get("st"), o.out) != want:
+                # same failure status, different number of bytes delivered before the failure: recorded finding (known_findings.json)
+                k = "failed-member-partial-output" if (o.kv.get("st") == want[0] and want[0] not in ("0", "crash")) else "history"
                 if res.violation("call %d of the history (member %d) gave status %s / %s bytes, a fresh decompressor gives status %s / %s bytes" % (
-                        j, idx, o.kv.get("st"), o.outlen, want[0], len(want[1] or "") // 2), sc.text(), key="history"): nbad += 1
-                break
+                        j, idx, o.kv.get("st"), o.outlen, want[0], len(want[1] or "") // 2), sc.text(), key=k):
+                    nbad += 1; break
         res.count(m[0])
     res.oblige("search: %d extract calls in %d histories agree with a fresh decompressor" % (ncalls, sum(1 for m in meta if m[0].endswith("-hist"))), nbad == 0)
     res.traces += ncalls
